@@ -252,6 +252,170 @@ def call_sequence(ast, vocab):
     return seq
 
 
+SYNC_CALLS = {"pthread_mutex_lock", "pthread_mutex_unlock", "pthread_cond_wait", "pthread_cond_signal", "pthread_cond_broadcast",
+              "list_first", "list_shift", "list_push", "sendto", "write", "sslwrite"}
+SYNC_EXITS = {"pthread_exit"}
+
+
+def _off(loc, end=False):
+    if "offset" not in loc and "expansionLoc" in loc:
+        loc = loc["expansionLoc"]
+    return loc["offset"] + (loc.get("tokLen", 0) if end else 0)
+
+
+def _src(text, n):
+    r = n["range"]
+    return re.sub(r"\s+", "", text[_off(r["begin"]):_off(r["end"], True)])
+
+
+def _has_sync(n):
+    for c in _walk(n, "CallExpr", []):
+        try:
+            if path_of(c["inner"][0]) in SYNC_CALLS:
+                return True
+        except Untranslatable:
+            pass
+    return False
+
+
+def sync_skeleton(repo, cfile, fn):
+    """G6: the synchronisation skeleton of a function: every statement that locks/unlocks a mutex, waits on / signals a
+    condition, inspects/changes a list, or sends, in textual order, with the control structure (and its conditions) around
+    them; statements that do none of these are left out, except return / pthread_exit inside a block that is kept."""
+    ast = clang_fn(repo, cfile, fn)
+    if not ast:
+        return None
+    text = open(os.path.join(repo, cfile), encoding="latin-1").read()
+
+    def sk(n):
+        """-> (tokens, has_sync)"""
+        k = n.get("kind")
+        if k == "CompoundStmt":
+            toks, hs = [], False
+            for c in n.get("inner", []) or []:
+                t, h = sk(c)
+                toks += t
+                hs = hs or h
+            return toks, hs
+        if k == "IfStmt":
+            inner = n["inner"]
+            cond, then = inner[0], inner[1]
+            els = inner[2] if len(inner) > 2 else None
+            t, ht = sk(then)
+            e, he = sk(els) if els else ([], False)
+            hc = _has_sync(cond)
+            if not (hc or ht or he):
+                return [], False
+            toks = ["if(" + _src(text, cond) + "){"] + t + ["}"]
+            if els and (he or e):
+                toks += ["else{"] + e + ["}"]
+            return toks, True
+        if k in ("WhileStmt", "DoStmt"):
+            cond, body = (n["inner"][0], n["inner"][1]) if k == "WhileStmt" else (n["inner"][1], n["inner"][0])
+            t, ht = sk(body)
+            if not (_has_sync(cond) or ht):
+                return [], False
+            return ["while(" + _src(text, cond) + "){"] + t + ["}"], True
+        if k == "ForStmt":
+            body = n["inner"][-1]
+            t, ht = sk(body)
+            if not ht:
+                return [], False
+            return ["loop{"] + t + ["}"], True
+        if k == "ReturnStmt":
+            return ["return"], False
+        if k == "BreakStmt":
+            return ["break"], False
+        if k in ("DeclStmt", "NullStmt"):
+            return ([_src(text, n)], True) if _has_sync(n) else ([], False)
+        # expression statement
+        if _has_sync(n):
+            return [_src(text, n)], True
+        for c in _walk(n, "CallExpr", []):
+            try:
+                if path_of(c["inner"][0]) in SYNC_EXITS:
+                    return ["exit"], False
+            except Untranslatable:
+                pass
+        return [], False
+
+    body = [c for c in ast["inner"] if c.get("kind") == "CompoundStmt"][0]
+    toks, _ = sk(body)
+    # blocks that hold no synchronisation are already gone; a top-level return says nothing
+    return [t for t in toks]
+
+
+def translate_producer(sk):
+    """the synchronisation skeleton of sendreply as a program over lock / peek / push / signal / unlock;
+    None when a statement has no counterpart in the model"""
+    prog, i, peeked, q = [], 0, None, None
+    while i < len(sk):
+        t = sk[i]
+        m = re.fullmatch(r"pthread_mutex_lock\(&(.*replyq)->mutex\)", t)
+        if m and q in (None, m.group(1)):
+            q = m.group(1)
+            prog.append("lock")
+            i += 1
+            continue
+        m = re.fullmatch(r"pthread_mutex_unlock\(&(.*replyq)->mutex\)", t)
+        if m and q in (None, m.group(1)):
+            q = m.group(1)
+            prog.append("unlock")
+            i += 1
+            continue
+        m = re.fullmatch(r"(\w+)=list_first\((.*replyq)->entries\)==NULL", t)
+        if m and q in (None, m.group(2)):
+            q = m.group(2)
+            peeked = m.group(1)
+            prog.append("peek")
+            i += 1
+            continue
+        m = re.fullmatch(r"if\(!list_push\((.*replyq)->entries,\w+\)\)\{", t)
+        if m and q in (None, m.group(1)) and sk[i + 1:i + 4] == [f"pthread_mutex_unlock(&{m.group(1)}->mutex)", "return", "}"]:
+            q = m.group(1)
+            prog.append("push")
+            i += 4
+            continue
+        if peeked and t == "if(" + peeked + "){" and i + 2 < len(sk) and sk[i + 1] == f"pthread_cond_signal(&{q}->cond)" and sk[i + 2] == "}":
+            prog.append("signal")
+            i += 3
+            continue
+        return None
+    return prog
+
+
+def translate_consumer(sk):
+    """the synchronisation skeleton of a server-side writer over the alphabet of the hand-off model; conditions that do not
+    touch the queue are reduced to `if{`; None when a queue statement has no counterpart"""
+    out = []
+    for t in sk:
+        if t in ("loop{", "}", "else{", "break", "exit", "return"):
+            out.append(t)
+        elif re.fullmatch(r"pthread_mutex_lock\(&replyq->mutex\)", t):
+            out.append("lock")
+        elif re.fullmatch(r"pthread_mutex_unlock\(&replyq->mutex\)", t):
+            out.append("unlock")
+        elif re.fullmatch(r"pthread_mutex_lock\(&client->lock\)", t):
+            out.append("lock-client")
+        elif re.fullmatch(r"pthread_mutex_unlock\(&client->lock\)", t):
+            out.append("unlock-client")
+        elif re.fullmatch(r"while\(!\((\w+)=\(structrequest\*\)list_shift\(replyq->entries\)\)\)\{", t):
+            out.append("while-empty-else-shift{")
+        elif re.fullmatch(r"while\(!list_first\(replyq->entries\)\)\{", t):
+            out.append("while-empty{")
+        elif re.fullmatch(r"pthread_cond_wait\(&replyq->cond,&replyq->mutex\)", t):
+            out.append("wait")
+        elif re.fullmatch(r"(\w+)=\(structrequest\*\)list_shift\(replyq->entries\)", t):
+            out.append("shift")
+        elif re.search(r"\b(sendto|write|sslwrite)\(", t) and "replybuf" in t:
+            out.append("if-send{" if t.startswith("if(") else "send")
+        elif t.startswith("if(") and not re.search(r"list_|pthread_|replyq", t):
+            out.append("if{")
+        else:
+            return None
+    return out
+
+
 GUARDS = [
     # (lean name, file, function, selector, {C access path: lean param}, [param order])
     ("radlenBad", "radmsg.c", "get_checked_rad_length", ("if_mentioning", ["len"]), {"len": "len"}, ["len"]),
@@ -386,6 +550,41 @@ def run(repo, outdir):
     except Exception:
         L.append("def realmRegFlags : Option (List String) := none")
         facts["realmRegFlags"] = {"status": "untied"}
+    L.append("")
+
+    # G6 synchronisation skeletons of the reply hand-off (C02): sendreply and the three server-side writers
+    for lname, cfile, fn in [("sendreplySync", "radsecproxy.c", "sendreply"), ("udpserverwrSync", "udp.c", "udpserverwr"),
+                             ("tcpserverwrSync", "tcp.c", "tcpserverwr"), ("tlsserverwrSync", "tlscommon.c", "tlsserverwr")]:
+        sk = None
+        try:
+            sk = sync_skeleton(repo, cfile, fn)
+        except Exception:
+            sk = None
+        if sk:
+            L.append(f"/-- {cfile}:{fn} -/")
+            L.append(f"def {lname} : Option (List String) := some {json.dumps(sk)}")
+            facts[lname] = {"status": "ok", "value": sk}
+        else:
+            L.append(f"def {lname} : Option (List String) := none")
+            facts[lname] = {"status": "untied"}
+        if lname != "sendreplySync":
+            prog = translate_consumer(sk) if sk else None
+            pname = lname.replace("Sync", "Prog")
+            if prog:
+                L.append(f"def {pname} : Option (List String) := some {json.dumps(prog)}")
+                facts[pname] = {"status": "ok", "value": prog}
+            else:
+                L.append(f"def {pname} : Option (List String) := none")
+                facts[pname] = {"status": "untied"}
+        if lname == "sendreplySync":
+            prog = translate_producer(sk) if sk else None
+            if prog:
+                L.append("/-- sendreply translated into the statement alphabet of Rsp.Model.Handoff (tools/extract.py translate_producer) -/")
+                L.append(f"def sendreplyProg : Option (List String) := some {json.dumps(prog)}")
+                facts["sendreplyProg"] = {"status": "ok", "value": prog}
+            else:
+                L.append("def sendreplyProg : Option (List String) := none")
+                facts["sendreplyProg"] = {"status": "untied"}
     L.append("")
 
     # G4 stage orders
